@@ -1126,6 +1126,28 @@ def main():
                     fails.append({"clause": "C16:override-leaks", "key": f"C16/ovr/{SEED}/{k}", "detail": f"scenario {nm}: {diff}"[:300],
                                   "input": txt(' scenario plan "Plan" { scenario delayed "Delayed" }', f"effort {e1} delayed:{ov}")})
                     break
+        # third sub-universe (seed C16-6): something in `plan` is anchored at the project end (an ALAP task without end
+        # and successors) and another scenario overrides an effort so that *its* work needs a longer horizon; `plan`
+        # must be what it is without the second scenario (only `plan` is compared: the other scenario's own horizon is
+        # known finding D14)
+        for k in range(max(4, n // 12)):
+            weeks = rng.choice([2, 3, 4])
+            e1 = rng.choice(["8h", "20h", "3d"])
+            big = rng.choice(["30d", "60d", "400h"])
+            e2 = rng.choice(["4h", "2d"])
+
+            def txt3(scen, ovr):
+                return (f'project prj "P" 2025-01-06 +{weeks}w {{ timezone "UTC"{scen} }}\nresource r1 "r1" {{}}\nresource r2 "r2" {{}}\n'
+                        f'task a "a" {{ effort {e1} {ovr} allocate r1 }}\n'
+                        f'task h "h" {{ effort {e2} allocate r2 scheduling alap }}\n')
+            two = run(txt3(' scenario plan "Plan" { scenario delayed "Delayed" }', f"delayed:effort {big}"))
+            one_plan = run(txt3("", ""))
+            evals += 1
+            record(("end-anchor", k), txt3(' scenario plan "Plan" { scenario delayed "Delayed" }', f"delayed:effort {big}"))
+            if dates(two, 0) != dates(one_plan, 0):
+                diff = {f: (dates(two, 0)[f], dates(one_plan, 0)[f]) for f in dates(one_plan, 0) if dates(two, 0)[f] != dates(one_plan, 0)[f]}
+                fails.append({"clause": "C16:override-moves-plan", "key": f"C16/end/{SEED}/{k}", "detail": f"scenario plan: {diff}"[:300],
+                              "input": txt3(' scenario plan "Plan" { scenario delayed "Delayed" }', f"delayed:effort {big}")})
     elif prop == "C18":
         for k, p in enumerate(gen_projects(rng, n // 2)):
             text = render(p).replace('taskreport rep "rep" { formats csv columns id, start, end }',
@@ -1154,6 +1176,33 @@ def main():
                     break
             if dates(proj) != before:
                 fails.append({"clause": "C18:report-changed-schedule", "key": f"C18/{SEED}/{k}", "detail": "", "input": text})
+        # format sub-universe (seed C18-6): every date cell is strftime(effective format) of *its own* instant -- formats
+        # that print the time of day only through composite directives (%R, %T, %X, %c), several instants on one day,
+        # the report's own format or the project's when the report leaves the default
+        for k in range(max(6, n // 8)):
+            fmt = rng.choice(["%Y-%m-%d %R", "%d.%m.%Y %T", "%x %X", "%c", "%Y-%m-%d", "%a %d %b %H.%M", "%j-%Y %I%p"])
+            where = rng.choice(["report", "project"])
+            effs = [rng.choice([1, 2, 3]) for _ in range(3)]
+            text = ('project prj "P" 2025-01-06 +3w { timezone "UTC"' + (f' timeformat "{fmt}"' if where == "project" else "") + ' }\n'
+                    'resource r1 "r1" {}\nresource r2 "r2" {}\n'
+                    f'task a "a" {{ effort {effs[0]}h allocate r1 }}\n'
+                    f'task b "b" {{ effort {effs[1]}h allocate r1 depends a }}\n'
+                    f'task c "c" {{ effort {effs[2]}h allocate r2 depends a }}\n'
+                    'taskreport rep "rep" { formats csv columns id, start, end' + (f' timeformat "{fmt}"' if where == "report" else "") + ' }\n')
+            proj = run(text)
+            before = dates(proj)
+            rep = [r for r in proj.reports][0]
+            rep.generate_intermediate_format() if hasattr(rep, "generate_intermediate_format") else None
+            cs = rep.content.to_csv()
+            evals += 1
+            record(("fmt", k), text)
+            for r in cs[1:]:
+                s_, e_, _sch = before[r[0]]
+                want = [s_.strftime(fmt) if s_ else "", e_.strftime(fmt) if e_ else ""]
+                if r[1:3] != want:
+                    fails.append({"clause": "C18:cell-format", "key": f"C18/fmt/{SEED}/{k}", "input": text,
+                                  "detail": f"row {r} but the scheduled values render as {want} in the effective format {fmt!r} ({where})"})
+                    break
         # file sub-universe: the generated .csv / .json files read back equal the in-memory renderings, also when cells
         # contain CSV punctuation (time formats and names with commas / quotes)
         import csv as _csv
